@@ -101,7 +101,7 @@ fn lcell(n_strings: u32) -> impl Strategy<Value = LCell> {
 }
 
 fn sheet(name: String, n_strings: u32, n_xf: u16) -> impl Strategy<Value = LSheet> {
-    let origin = (proptest::sample::select(vec![0u16, 0, 1, 100, 32767, 65515]), proptest::sample::select(vec![0u16, 0, 1, 25, 26, 200, 243]));
+    let origin = (proptest::sample::select(vec![0u16, 0, 1, 100, 32767, 65516]), proptest::sample::select(vec![0u16, 0, 1, 25, 26, 200, 244]));
     // a few horizontal runs of numbers so that MULRK groupings occur often
     let runs = proptest::collection::vec((0u16..20, 0u16..7, proptest::collection::vec((number(), any::<u8>(), 0..n_xf), 2..6)), 0..3);
     (origin, proptest::collection::btree_map((0u16..20, 0u16..12), (lcell(n_strings), 0..n_xf), 0..40), runs, any::<u32>(), 0u8..3, any::<u8>()).prop_map(move |((r0, c0), mut cells, runs, mulrk, dimensions, junk)| {
@@ -178,6 +178,26 @@ pub fn build(case: &Case, rot: u8) -> XlsDoc {
                 grouped.push(cells[i].clone());
                 i += 1;
             }
+        }
+        // every cell record carries its own position: the rows of the cell table may come in any
+        // order (Excel writes them ascending; other producers append). Half of the encodings keep
+        // the ascending order, the others write the rows descending or rotated.
+        let order_mode = ((ls.mulrk >> 28) as u8 ^ rot) % 4;
+        if order_mode >= 2 {
+            let mut rows: Vec<Vec<BCell>> = vec![];
+            for c in grouped.drain(..) {
+                match rows.last_mut() {
+                    Some(r) if r[0].row == c.row => r.push(c),
+                    _ => rows.push(vec![c]),
+                }
+            }
+            if order_mode == 2 {
+                rows.reverse();
+            } else {
+                let mid = rows.len() / 2;
+                rows.rotate_left(mid);
+            }
+            grouped = rows.into_iter().flatten().collect();
         }
         sheets.push(BSheet { name: ls.name.clone(), name_wide: rot % 2 == 1, cells: grouped, dimensions: ls.dimensions, junk: ls.junk.rotate_left(rot as u32), ..Default::default() });
     }
@@ -262,6 +282,10 @@ fn oracle(case: &Case) -> Report {
         }
     }
     rep.label(if case.cfb.v4 { "cfb:v4" } else { "cfb:v3" });
+    for d in [&doc, &doc2] {
+        let unordered = d.sheets.iter().any(|s| s.cells.windows(2).any(|w| w[1].row < w[0].row));
+        rep.label_if(unordered, "rows:not-ascending");
+    }
     rep.nontrivial = rk && kinds.len() >= 3;
     rep
 }
